@@ -287,6 +287,21 @@ def rule_stale_kept(ctx, c, rule):
             ctx.fail(rule, HC, fn.loc(g), "the lookup of the active collector distinguishes a missing entry",
                      "no None edge on the result of get_mut at bb%d" % g, extra="get%d" % gets.index(g))
             continue
+        # ... and when the collector exists, the set is attached to it on every path (no "already have it" / "not interesting" skip:
+        # the same set pushed to two parents of one trace is two attachments)
+        some = set()
+        for sb in sws:
+            some |= set(fn.variant_edges(sb, ["Some"]))
+        coll_pushes = [b for b in fn.calls_re(r"alloc::vec::Vec::<T, A>::(push|extend\w*)$|Extend(<.*>)?>?::extend$", cleanup=False)
+                       if "SpanCollection" in fn.term(b)["arg_tys"][0] and c.vec_arg_role(fn, fn.term(b)) != "stale"]
+        if some and coll_pushes:
+            r1 = fn.reach([d for (_, d, _) in some], avoid_blocks=coll_pushes)
+            bad1 = sorted((r1 & nexts) | (r1 & set(fn.returns())))
+            ctx.check(not bad1, rule, HC, fn.loc(g),
+                      "when the active collector exists, the submitted span set is attached to it on every path",
+                      "attach sites %s" % [fn.loc(x) for x in coll_pushes],
+                      "from the Some edge of get_mut (bb%d) the loop continues (bb%s) without attaching the span set to the collector" % (g, bad1 and bad1[0]),
+                      extra="found%d" % gets.index(g))
         starts = [d for (_, d, _) in none]
         r = fn.reach(starts, avoid_blocks=stale_pushes, avoid_edges=canc_true)
         bad = sorted((r & nexts) | (r & set(fn.returns())))
